@@ -135,6 +135,9 @@ func (e *knownEngine) unknownWitness(b *ssa.BasicBlock) (bool, string) {
 	if ok, why := e.atomWitness(b); ok {
 		return true, why
 	}
+	if e.pathsJustified(b, 0, map[*ssa.BasicBlock]bool{}) {
+		return true, "every path here has seen an unknown operand or recorded an error"
+	}
 	// a dominating test of a flag
 	for d := b; d != nil && d.Idom() != nil; d = d.Idom() {
 		iff, ok := lastIf(d.Idom())
@@ -221,7 +224,39 @@ func (e *knownEngine) atomWitness(b *ssa.BasicBlock) (bool, string) {
 	if a.n == 0 {
 		return false, "no known-ness test in the function"
 	}
-	st := a.state[b]
+	return witnessIn(a, a.state[b])
+}
+
+// pathsJustified: every edge into b is taken only with an unknown-operand witness or after an
+// error was recorded (a return shared by an error path and an unknown-operand path).
+func (e *knownEngine) pathsJustified(b *ssa.BasicBlock, depth int, seen map[*ssa.BasicBlock]bool) bool {
+	if depth > 4 || seen[b] || len(b.Preds) == 0 {
+		return false
+	}
+	seen[b] = true
+	a := e.abstraction(b.Parent(), nil)
+	for _, p := range b.Preds {
+		if errorEvidence(p) {
+			continue
+		}
+		if a.n > 0 {
+			if ok, _ := witnessIn(a, a.edgeState(p, b)); ok {
+				continue
+			}
+		}
+		if ok, _ := e.unknownWitness(p); ok {
+			continue
+		}
+		// a plain fall-through block: judge its own predecessors
+		if _, isIf := lastIf(p); !isIf && e.pathsJustified(p, depth+1, seen) {
+			continue
+		}
+		return false
+	}
+	return true
+}
+
+func witnessIn(a *knAbs, st []uint64) (bool, string) {
 	if st == nil {
 		return false, "unreachable?"
 	}
